@@ -1,5 +1,6 @@
 import Amgcl.Proofs.SkylineNCMatrix
 import Amgcl.Proofs.StaticMatrixNC
+import Amgcl.Proofs.SkylineNCSMat
 /-!
 # C16d — skyline LU for BLOCK values: the theorems of C16 over a non-commutative ring
 
@@ -228,6 +229,48 @@ example : ((⟨#[a00]⟩ : SMat B2 1 1) * ⟨#[a01]⟩).toMatrix = (⟨#[a00]⟩
   sm_mul_spec_nc _ _
 
 end staticMatrixNC
+
+/-! ## the carrier of the driver: `SMat K b b` (array-backed `static_matrix<T,b,b>`) -/
+section smat
+variable {b : Nat} {K : Type}
+attribute [local instance] mulVecHMul smatMul
+
+/-- **the run the driver executes** (`direct_skyb_solve`: the model at `V = SMat K b b`, `R = SMat K b 1`, zero test
+`SMat.isZero`, any inverse routine `invS` — the driver passes `SMat.inverse`) **solves the block system.**  The run is
+mapped entrywise by `SMat.toMatrix` onto the run at `Matrix (Fin b) (Fin b) K` (`Skyline.factorize_map`, `solve_map`,
+`build_mapVal`), to which `skyline_block_solve_matrix` applies; `invS` acts on matrices as
+`m ↦ (invS (ofMatrix m)).toMatrix`.  Hypotheses on the input: the stored blocks are well-formed buffers (`b·b` entries). -/
+theorem skyline_block_solve_smat [Ring K] [DecidableEq K] (invS : SMat K b b → SMat K b b)
+    (A : CRS (SMat K b b)) (perm : Array Nat) (S : Skyline (SMat K b b) (SMat K b 1))
+    (hn : 1 ≤ A.nrows) (hsq : A.ncols = A.nrows) (hwf : A.WF) (hnd : ∀ i, ((A.row i).map (·.1)).Nodup)
+    (hp : PermOn A.nrows perm) (hblk : ∀ i, ∀ cv ∈ A.row i, cv.2.WF)
+    (h : factorize SMat.isZero invS (build (R := SMat K b 1) SMat.isZero A perm) = .ok S)
+    (hpi : PivotsOK (fun v => decide (v = 0)) (fun m => (invS (ofMatrix m)).toMatrix)
+      (build (R := Fin b → K) (fun v => decide (v = 0)) (A.mapVal SMat.toMatrix) perm))
+    (rhs x : Array (SMat K b 1)) (hx : x.size = A.nrows) :
+    ∀ r, r < A.nrows →
+      ∑ c ∈ range A.nrows, (A.get r c).toMatrix.mulVec (toVec ((solve S rhs x).1.getD c 0)) = toVec (rhs.getD r 0) := by
+  have hb : build (R := Fin b → K) (fun v => decide (v = 0)) (A.mapVal SMat.toMatrix) perm
+      = (build (R := SMat K b 1) SMat.isZero A perm).map SMat.toMatrix toVec :=
+    build_mapVal SMat.toMatrix toVec SMatNC.toMatrix_zero toVec_zero SMat.isZero _ A perm
+      (fun i cv _ => isZero_eq_decide cv.2)
+  have hf := factorize_map toVec opHom_toMatrix (testHom_toMatrix invS) (build (R := SMat K b 1) SMat.isZero A perm)
+    (build_D_good (fun a : SMat K b b => a.WF) wf_zero SMat.isZero A perm hblk)
+  rw [h] at hf
+  have hmain := skyline_block_solve_matrix (fun m => (invS (ofMatrix m)).toMatrix) (A.mapVal SMat.toMatrix) perm
+    (S.map SMat.toMatrix toVec) (by rw [nrows_mapVal]; exact hn) (by rw [nrows_mapVal]; exact hsq)
+    (wf_mapVal _ A hwf) (nodup_mapVal _ A hnd) (by rw [nrows_mapVal]; exact hp) (by rw [hb]; exact hf) hpi
+    (rhs.map toVec) (x.map toVec) (by rw [Array.size_map, nrows_mapVal]; exact hx)
+  intro r hr
+  have := hmain r (by rw [nrows_mapVal]; exact hr)
+  rw [nrows_mapVal, solve_map actHom_toVec] at this
+  rw [getD_map toVec toVec_zero] at this
+  rw [← this]
+  apply Finset.sum_congr rfl
+  intro c _
+  rw [get_mapVal SMat.toMatrix SMatNC.toMatrix_zero (fun a c => SMatNC.toMatrix_add a c), getD_map toVec toVec_zero]
+
+end smat
 
 /-! ## non-vacuity: a 2 x 2 block system whose 2 x 2 integer blocks do not commute -/
 section examples
